@@ -102,6 +102,20 @@ pub fn field_scripts(named: bool, name: u8) -> Vec<Vec<FSet>> {
             }
         }
     }
+    // repeated setters on one field: the last call is the one supplied
+    let nm = |mut v: Vec<FSet>| {
+        if named {
+            v.insert(1, FSet::Name(name));
+        }
+        v
+    };
+    out.push(nm(vec![FSet::Ty(0), FSet::TypeName(0), FSet::TypeName(1)]));
+    out.push(nm(vec![FSet::TypeName(1), FSet::Ty(3), FSet::TypeName(0)]));
+    out.push(nm(vec![FSet::TypeName(0), FSet::TypeName(1), FSet::TypeName(0), FSet::Ty(1)]));
+    out.push(nm(vec![FSet::Docs(true, 1), FSet::Ty(0), FSet::Docs(true, 2)]));
+    out.push(nm(vec![FSet::Docs(true, 2), FSet::Ty(0), FSet::Docs(true, 0)]));
+    out.push(nm(vec![FSet::Docs(false, 2), FSet::Docs(true, 1), FSet::Ty(0)]));
+    out.push(nm(vec![FSet::Docs(true, 1), FSet::Ty(0), FSet::Docs(false, 2)]));
     out
 }
 
@@ -182,6 +196,15 @@ pub fn variant_scripts() -> Vec<Vec<VSet>> {
             }
         }
     }
+    // repeated setters on one variant: the last call is the one supplied
+    let fr = fields_spec_reps();
+    out.push(vec![VSet::Index(7), VSet::Docs(true, 1), VSet::Docs(true, 2)]);
+    out.push(vec![VSet::Docs(true, 2), VSet::Index(7), VSet::Docs(true, 0)]);
+    out.push(vec![VSet::Docs(false, 2), VSet::Docs(true, 1), VSet::Index(7)]);
+    out.push(vec![VSet::Fields(fr[2].clone()), VSet::Index(7), VSet::Fields(fr[4].clone())]);
+    out.push(vec![VSet::Index(7), VSet::Fields(fr[4].clone()), VSet::Fields(fr[0].clone())]);
+    out.push(vec![VSet::Fields(fr[1].clone()), VSet::Fields(fr[3].clone()), VSet::Index(7)]);
+    out.push(vec![VSet::Discriminant(3), VSet::Index(7), VSet::Discriminant(4)]);
     out
 }
 
